@@ -938,3 +938,36 @@ fn c07_nuts_seed_u64_max() {
     let target = DiffableGaussian2D::new([0.0f32, 1.0], [[4.0, 2.0], [2.0, 3.0]]);
     let _s = NUTS::<f32, B, _>::new(target, vec![vec![0.0f32, 0.0]; 3], 0.8).set_seed(u64::MAX);
 }
+
+/// C10 — progress mode succeeds for f32 and f64 backends and scalar types alike.
+mod c10_precision {
+    use burn::backend::{Autodiff, NdArray};
+    use mini_mcmc::distributions::DiffableGaussian2D;
+    use mini_mcmc::hmc::HMC;
+    use mini_mcmc::nuts::NUTS;
+
+    #[test]
+    fn c10_hmc_run_progress_f64_backend() {
+        type B = Autodiff<NdArray<f64>>;
+        let target = DiffableGaussian2D::new([0.0f64, 1.0], [[4.0, 2.0], [2.0, 3.0]]);
+        let mut s = HMC::<f64, B, _>::new(target, vec![vec![0.0f64, 0.0], vec![1.0, -1.0]], 0.1, 3).set_seed(1);
+        let (sample, _stats) = s.run_progress(6, 2).unwrap();
+        assert_eq!(sample.dims(), [2, 6, 2]);
+    }
+    #[test]
+    fn c10_nuts_run_progress_f64_backend() {
+        type B = Autodiff<NdArray<f64>>;
+        let target = DiffableGaussian2D::new([0.0f64, 1.0], [[4.0, 2.0], [2.0, 3.0]]);
+        let mut s = NUTS::<f64, B, _>::new(target, vec![vec![0.0f64, 0.0], vec![1.0, -1.0]], 0.8).set_seed(1);
+        let (sample, _stats) = s.run_progress(6, 2).unwrap();
+        assert_eq!(sample.dims(), [2, 6, 2]);
+    }
+    #[test]
+    fn c10_hmc_run_progress_f32_backend() {
+        type B = Autodiff<NdArray<f32>>;
+        let target = DiffableGaussian2D::new([0.0f32, 1.0], [[4.0, 2.0], [2.0, 3.0]]);
+        let mut s = HMC::<f32, B, _>::new(target, vec![vec![0.0f32, 0.0], vec![1.0, -1.0]], 0.1, 3).set_seed(1);
+        let (sample, _stats) = s.run_progress(6, 2).unwrap();
+        assert_eq!(sample.dims(), [2, 6, 2]);
+    }
+}
